@@ -35,6 +35,9 @@ pub struct MultiNodeTaskAssignment {
     // For example for MPI application, HQ starts "mpirun" on a root node and HQ
     // does no other action other nodes expect ensuring that nothing else is running there.
     pub is_root: bool,
+
+    // True when the root worker has already announced the start of the task.
+    pub is_started: bool,
 }
 
 #[derive(Debug)]
@@ -133,7 +136,17 @@ impl Worker {
 
     pub fn set_mn_task(&mut self, task_id: TaskId, is_root: bool) {
         assert!(self.is_free());
-        self.assignment = WorkerAssignment::Mn(MultiNodeTaskAssignment { task_id, is_root });
+        self.assignment = WorkerAssignment::Mn(MultiNodeTaskAssignment {
+            task_id,
+            is_root,
+            is_started: false,
+        });
+    }
+
+    pub fn set_mn_task_started(&mut self) {
+        if let WorkerAssignment::Mn(a) = &mut self.assignment {
+            a.is_started = true;
+        }
     }
 
     pub fn has_mn_task(&self) -> bool {
